@@ -10,6 +10,7 @@ import TonicModel.Lemmas.BalanceRun
 import TonicModel.Lemmas.BalanceDebt
 import TonicModel.Lemmas.BalanceWitness
 import TonicModel.Lemmas.BalanceSpecMain
+import TonicModel.Lemmas.BalanceRunAll
 import TonicModel.Lemmas.BalanceAcct
 import TonicModel.Lemmas.ReconnectAbandon
 /-
@@ -523,15 +524,17 @@ stopping, `Change::Insert` / `Change::Remove` (`BalScript.BOp`). -/
 its own — a response, the UNAVAILABLE-class failure of one connection attempt, or (the call went
 out on a connection whose peer was already gone) an error of that connection — never a hang and
 never a panic: for every script of servers starting and stopping and endpoints inserted and
-removed, and for every sequence of choices of the balancer. -/
+removed, for every sequence of choices of the balancer, and for EVERY call of the script — also
+those issued after an earlier call hung on the then endpoint-less channel (`Balance.runAll` goes on
+past a hang; `Balance.run`, what the harness observes, stops at the first one). -/
 theorem C14_balanced_call_definite (ops : List BalScript.BOp) (chs : List Balance.Choice) :
-    ∀ p ∈ Balance.run (Balance.B.init true) ops chs,
+    ∀ p ∈ Balance.runAll (Balance.B.init true) ops chs,
       (0 < p.1 → (∃ k g, p.2 = .resp k g) ∨ (∃ k x, p.2 = .err k x) ∨ (∃ k, p.2 = .lost k)) ∧
       (∀ code, p.2.obs = .error code → code = unavailable) := by
   intro p hp
   constructor
   · intro hm
-    have := Balance.run_definite ops (Balance.B.init true) chs rfl (by intro e he; cases he) p hp hm
+    have := Balance.runAll_definite ops (Balance.B.init true) chs rfl (by intro e he; cases he) p hp hm
     cases h : p.2 with
     | resp k g => exact Or.inl ⟨k, g, rfl⟩
     | err k x => exact Or.inr (Or.inl ⟨k, x, rfl⟩)
@@ -541,6 +544,28 @@ theorem C14_balanced_call_definite (ops : List BalScript.BOp) (chs : List Balanc
   · intro code hc
     cases h : p.2 <;> rw [h] at hc <;> simp [Balance.BRes.obs] at hc
     rw [← hc]; exact Net.refusedCode_eq
+
+/-- `Balance.run` (the observation that ends at the first hang — what the correspondence run
+compares with the real channel) is `Balance.runAll` cut there, so the statement above covers
+every call `run` reports.  (This is what `C14_balanced_call_definite` said before review round 4:
+it did NOT cover the calls after a hang.) -/
+theorem C14_balanced_call_definite_observed_run (ops : List BalScript.BOp) (chs : List Balance.Choice) :
+    Balance.run (Balance.B.init true) ops chs <+: Balance.runAll (Balance.B.init true) ops chs ∧
+    ∀ p ∈ Balance.run (Balance.B.init true) ops chs,
+      (0 < p.1 → (∃ k g, p.2 = .resp k g) ∨ (∃ k x, p.2 = .err k x) ∨ (∃ k, p.2 = .lost k)) ∧
+      (∀ code, p.2.obs = .error code → code = unavailable) :=
+  ⟨Balance.run_prefix_runAll ops _ chs,
+   fun p hp => C14_balanced_call_definite ops chs p ((Balance.run_prefix_runAll ops _ chs).subset hp)⟩
+
+/-- The same at state level: in EVERY state any script can lead to (hangs on the way included), a
+call on a channel that has an endpoint gets a result of its own, whatever the balancer chooses. -/
+theorem C14_balanced_call_definite_in_every_state (ops : List BalScript.BOp) (chs : List Balance.Choice)
+    (ch : Balance.Choice) :
+    let s := Balance.exec (Balance.B.init true) ops chs
+    0 < Balance.members s.eps → (Balance.call s ch).2.definite = true := by
+  intro s hm
+  exact Balance.call_definite s ch
+    (Balance.exec_lz ops (Balance.B.init true) chs rfl (by intro e he; cases he)).2 hm
 
 /-- The one case in which a call on a balanced channel waits: the channel has NO endpoint (none
 inserted yet, or all removed). `Balance::poll_ready` is then `Pending` until discovery delivers
@@ -710,11 +735,16 @@ owes a failure (it was unreachable at the time of a call, or its server was stop
 neither answered nor been the only one owing when an error was handed out since — so a failure is
 not replayed), a response comes from a listening endpoint of the channel and from its current
 server generation, an error that is not a connect error only after a server of the channel was
-stopped, and with every endpoint reachable and none owing the call succeeds. (The oracle is
-evaluated on what the real channel did, case by case, by `./check C14`.) -/
+stopped, and with every endpoint reachable and none owing the call succeeds.
+First conjunct: the observation that ENDS AT THE FIRST HANG (`Balance.run` / `Spec.Balance.holds`:
+the oracle evaluated on what the real channel did, case by case, by `./check C14` — the harness
+cannot go on after a real hang).  Second conjunct: the observation carried on past every hang
+(`Balance.runAll` / `Spec.Balance.holdsAll`, same clauses per call), so that every call of the
+script is judged — model only; the calls after a hang are not tied to the real channel. -/
 theorem C14_balanced_spec (ops : List BalScript.BOp) (chs : List Balance.Choice) :
-    Spec.Balance.holds ops ((Balance.run (Balance.B.init true) ops chs).map fun p => p.2.obs) = true :=
-  Balance.run_spec_init ops chs
+    Spec.Balance.holds ops ((Balance.run (Balance.B.init true) ops chs).map fun p => p.2.obs) = true ∧
+    Spec.Balance.holdsAll ops ((Balance.runAll (Balance.B.init true) ops chs).map fun p => p.2.obs) = true :=
+  ⟨Balance.run_spec_init ops chs, Balance.runAll_spec_init ops chs⟩
 
 /-- … and the counter-model with non-lazy endpoint connections (seed C14e) does not: the oracle
 rejects its run on the one-endpoint witness (`definite-result`). -/
@@ -845,5 +875,13 @@ example : Spec.ReconnectAbandon.holdsButStrict true [.refuse] [.abandon, .call]
     { build := .ok, buildAttempts := 0, evs := [.abandoned 1, .call .hang 1] } = false := by decide
 example : ∃ r : R, r.error = none ∧ r.st = .connecting ∧ (r.hasBeen || r.isLazy) = true :=
   ⟨{ R.init true with st := .connecting, made := 1 }, rfl, rfl, rfl⟩
+
+-- review round 4 (lr5-7): a call issued after a call that hung on the endpoint-less channel is
+-- judged by the run-level theorems (`runAll`), while `run` stops at the hang; the oracle carried on
+-- past the hang is not trivially true (it rejects a second hang once an endpoint is there)
+example : Balance.run (Balance.B.init true) [.call, .insert 0, .up 0, .call] [] = [(0, .hang)] := by decide
+example : Balance.runAll (Balance.B.init true) [.call, .insert 0, .up 0, .call] [] = [(0, .hang), (1, .resp 0 1)] := by decide
+example : Spec.Balance.holdsAll [.call, .insert 0, .up 0, .call] [.hang, .resp 0 1] = true := by decide
+example : Spec.Balance.holdsAll [.call, .insert 0, .up 0, .call] [.hang, .hang] = false := by decide
 
 end C14
